@@ -46,6 +46,7 @@ From ASModel Require Import GenDefs Gen1 Gen2 Gen EnvDefs Env4 Env AccDefs Acc1 
 From ASModel Require Import ProtDefs Prot1 Prot11 Prot16 Prot Typed LinDefs Lin2 Lin Safe1 Safe2 Safe7 Safe8 Safe Main GenLen ProgWF1 ProgWF.
 From ASModel Require Import Stale StaleInv.
 From ASModel Require Import Stale2 Stale2Inv.
+From ASModel Require Import Stale2S.
 
 Theorem C02_dec : forall s a,
   match heap s a with
@@ -172,3 +173,9 @@ Proof. exact (Stale2Inv8.C02_no_owner_destroyed_stale2 cf inits progs sched a). 
 
 Print Assumptions C02_accounting_stale2.
 Print Assumptions C02_no_owner_destroyed_stale2.
+
+Theorem C02_accounting_stale2_static cf inits progs sched :
+  RunStaticS2 cf inits progs sched -> Acc (run_state_stale2 cf (init_state inits progs) sched).
+Proof. exact (Stale2S4.C02_accounting_stale2_static cf inits progs sched). Qed.
+
+Print Assumptions C02_accounting_stale2_static.
